@@ -24,5 +24,7 @@ for c in 256 384; do
   openssl ec -in p${c}_1.sec1.der -inform DER -no_public -outform DER -out p${c}_3np.sec1.der
   openssl pkcs8 -topk8 -nocrypt -inform DER -in p${c}_3np.sec1.der -outform DER -out p${c}_3np.pkcs8.der
 done
+# p256_5bare / p384_5bare (.sec1.der): the ECPrivateKey of p256_1 / p384_1 reduced to { version, privateKey } (no curve, no public key);
+# written by a few lines of Python (see the commit that added them), OpenSSL has no option for it
 openssl genpkey -algorithm ED448 -outform DER -out ed448_1.pkcs8.der
 chmod 644 *
